@@ -140,6 +140,108 @@ static std::string check_against_obj(const std::string &path, const std::string 
   return "";
 }
 
+// C10 on stored streams (mode c10): every stream of the corpus - in particular the legacy ones, whose decoders read the
+// transform parameters in version-gated branches - is decoded normally and with skip sets; a skipped attribute that
+// carries a transform must come back as integers plus a transform description which, applied through the library's own
+// transform class, reproduces the ordinary decode bit for bit; everything else must be unchanged. No spec is needed: an
+// attribute "carries a transform" when the ordinary decode is float and the skipped decode is integral.
+#include "draco/attributes/attribute_octahedron_transform.h"
+#include "draco/attributes/attribute_quantization_transform.h"
+static std::string check_stream_c10(const std::string &path) {
+  const std::vector<char> bytes = read_all(path);
+  DecodeResult N = decode_bytes(bytes);
+  if (!N.status.ok()) return base_name(path) + ": ordinary decode failed: " + N.status.error_msg_string();
+  uint32_t present = 0;
+  for (int i = 0; i < N.geom->num_attributes(); ++i)
+    if (N.geom->attribute(i)->attribute_type() >= 0 && N.geom->attribute(i)->attribute_type() < 5) present |= 1u << N.geom->attribute(i)->attribute_type();
+  std::set<uint32_t> masks = {31u};
+  for (int t = 0; t < 5; ++t)
+    if (present & (1u << t)) masks.insert(1u << t);
+  static const bool thorough = std::string(env("VERIF_TIER", "quick")) == "thorough";
+  if (thorough) for (uint32_t m = 1; m < 32; ++m) masks.insert(m);
+  bool any_transform = false;
+  for (uint32_t m : masks) {
+    std::vector<int> types;
+    for (int t = 0; t < 5; ++t) if (m & (1u << t)) types.push_back(t);
+    DecodeResult S = decode_bytes(bytes, types, static_cast<int>(m & 1));
+    const std::string pre = base_name(path) + " skip set " + std::to_string(m) + ": ";
+    if (!S.status.ok()) return pre + "decode failed: " + S.status.error_msg_string();
+    if (N.geom->num_points() != S.geom->num_points() || N.geom->num_attributes() != S.geom->num_attributes()) return pre + "point or attribute count differs";
+    if (N.geometry_type == 1) {
+      const auto &mn = static_cast<const draco::Mesh &>(*N.geom);
+      const auto &ms = static_cast<const draco::Mesh &>(*S.geom);
+      if (mn.num_faces() != ms.num_faces()) return pre + "face count differs";
+      for (uint32_t f = 0; f < mn.num_faces(); ++f)
+        for (int k = 0; k < 3; ++k)
+          if (mn.face(FaceIndex(f))[k] != ms.face(FaceIndex(f))[k]) return pre + "connectivity differs";
+    }
+    for (int i = 0; i < N.geom->num_attributes(); ++i) {
+      const draco::PointAttribute *n = N.geom->attribute(i), *sa = S.geom->attribute(i);
+      const std::string who = pre + "attribute #" + std::to_string(i) + ": ";
+      if (n->attribute_type() != sa->attribute_type()) return who + "attribute type differs";
+      if (n->unique_id() != sa->unique_id()) return who + "unique id differs";
+      const bool in_k = n->attribute_type() >= 0 && n->attribute_type() < 5 && ((m >> n->attribute_type()) & 1);
+      const bool transformed = n->data_type() == draco::DT_FLOAT32 && draco::IsDataTypeIntegral(sa->data_type());
+      uint8_t bn[256], bs[256];
+      if (!transformed) {
+        if (n->data_type() != sa->data_type()) {
+          // integer attribute of a skipped type: the int32 working copy is handed out (same integers, widened)
+          if (!(in_k && draco::IsDataTypeIntegral(n->data_type()) && sa->data_type() == draco::DT_INT32 && sa->num_components() == n->num_components()))
+            return who + "data type changed";
+          for (uint32_t p = 0; p < N.geom->num_points(); ++p) {
+            int64_t vn[16], vs[16];
+            if (n->num_components() > 16 || !n->ConvertValue<int64_t>(n->mapped_index(PointIndex(p)), n->num_components(), vn) ||
+                !sa->ConvertValue<int64_t>(sa->mapped_index(PointIndex(p)), n->num_components(), vs))
+              return who + "ConvertValue failed";
+            for (int c = 0; c < n->num_components(); ++c)
+              if (static_cast<uint32_t>(vn[c]) != static_cast<uint32_t>(vs[c])) return who + "integer value of point " + std::to_string(p) + " changed by the skip option";
+          }
+          continue;
+        }
+        if (n->num_components() != sa->num_components() || n->byte_stride() != sa->byte_stride() || n->byte_stride() > 256) return who + "descriptor changed";
+        for (uint32_t p = 0; p < N.geom->num_points(); ++p) {
+          n->GetMappedValue(PointIndex(p), bn);
+          sa->GetMappedValue(PointIndex(p), bs);
+          if (memcmp(bn, bs, n->byte_stride()) != 0) return who + "value of point " + std::to_string(p) + " changed by the skip option";
+        }
+        continue;
+      }
+      if (!in_k) return who + "attribute came back as integers although its type is not in the skip set";
+      any_transform = true;
+      const draco::AttributeTransformData *td = sa->GetAttributeTransformData();
+      if (!td) return who + "skipped attribute has no transform description";
+      GeometryAttribute ga;
+      ga.Init(n->attribute_type(), nullptr, n->num_components(), draco::DT_FLOAT32, false, 4 * n->num_components(), 0);
+      draco::PointAttribute target(ga);
+      target.Reset(sa->size());
+      if (td->transform_type() == draco::ATTRIBUTE_OCTAHEDRON_TRANSFORM) {
+        draco::AttributeOctahedronTransform tr;
+        if (!tr.InitFromAttribute(*sa) || !tr.InverseTransformAttribute(*sa, &target)) return who + "described octahedron transform cannot be applied";
+        count("c10_corpus_octahedral");
+      } else if (td->transform_type() == draco::ATTRIBUTE_QUANTIZATION_TRANSFORM) {
+        draco::AttributeQuantizationTransform tr;
+        if (!tr.InitFromAttribute(*sa) || !tr.InverseTransformAttribute(*sa, &target)) return who + "described quantization transform cannot be applied";
+        count("c10_corpus_quantized");
+      } else {
+        return who + "unknown transform description";
+      }
+      for (uint32_t p = 0; p < N.geom->num_points(); ++p) {
+        n->GetMappedValue(PointIndex(p), bn);
+        target.GetValue(sa->mapped_index(PointIndex(p)), bs);
+        if (memcmp(bn, bs, 4 * n->num_components()) != 0)
+          return who + "integers + described transform do not reproduce the ordinary decode at point " + std::to_string(p);
+      }
+    }
+    count("c10_corpus_skip_decodes");
+  }
+  count(any_transform ? "c10_corpus_streams_with_transform" : "c10_corpus_streams_without_transform");
+  {
+    const uint8_t maj = bytes.size() > 6 ? static_cast<uint8_t>(bytes[5]) : 0, mnr = bytes.size() > 6 ? static_cast<uint8_t>(bytes[6]) : 0;
+    if (any_transform) count("c10_corpus_version_" + std::to_string(maj) + "." + std::to_string(mnr));
+  }
+  return "";
+}
+
 int main(int argc, char **argv) {
   bool freeze = false;
   for (int i = 1; i < argc; ++i) freeze |= std::string(argv[i]) == "--freeze";
@@ -166,6 +268,12 @@ int main(int argc, char **argv) {
     Golden g;
     while (in >> name >> g.digest >> g.points >> g.faces >> g.atts) golden[name] = g;
   }
+  const bool c10 = std::string(env("VERIF_MODE", "c05")) == "c10";
+  if (!replay_path.empty() && c10) {
+    std::string e = guarded([&] { return check_stream_c10(replay_path); });
+    printf(e.empty() ? "REPLAY-PASS\n" : "REPLAY-FAIL %s\n", e.c_str());
+    return e.empty() ? 0 : 1;
+  }
   if (!replay_path.empty()) {
     std::string e = guarded([&] { return check_stream(replay_path, golden); });
     if (e.empty() && base_name(replay_path).rfind("test_nm.obj.", 0) == 0)
@@ -179,20 +287,30 @@ int main(int argc, char **argv) {
       "DecodeMesh/PointCloudFromBuffer and DecodeBufferToGeometry and its ordered digest (attribute descriptors, points, "
       "faces, values, metadata, in decoded order) is compared with corpus/golden.txt; each header is rewritten to 10 "
       "unsupported versions that must be refused with UNKNOWN_VERSION; every stream is distinct and counts as non-trivial";
+  if (c10)
+    stats().rule =
+        "C10 on stored streams: every stream of the corpus (25 legacy + frozen) decoded normally and with the full skip set "
+        "and each single present type (thorough: all subsets); skipped float attributes must come back as integers with a "
+        "transform description that reproduces the ordinary decode bit for bit through the library's transform class";
   const int shard = atoi(env("VERIF_SHARD", "0")), nshards = std::max(1, atoi(env("VERIF_NSHARDS", "1")));
   std::string err;
   for (size_t i = 0; i < files.size() && err.empty(); ++i) {
     if (static_cast<int>(i % nshards) != shard) continue;
-    set_case("c05", {static_cast<int64_t>(i)}, J().str("stream", files[i]).done());
-    err = guarded([&] { return check_stream(files[i], golden); });
-    if (err.empty() && base_name(files[i]).rfind("test_nm.obj.", 0) == 0) {
+    set_case(c10 ? "c10" : "c05", {static_cast<int64_t>(i)}, J().str("stream", files[i]).done());
+    if (c10) {
+      err = guarded([&] { return check_stream_c10(files[i]); });
+      if (err.empty()) nontrivial(static_cast<uint64_t>(i) + 1);
+    } else {
+      err = guarded([&] { return check_stream(files[i], golden); });
+    }
+    if (!c10 && err.empty() && base_name(files[i]).rfind("test_nm.obj.", 0) == 0) {
       err = guarded([&] { return check_against_obj(files[i], std::string(env("VERIF_REPO", "/repo")) + "/testdata/test_nm.obj"); });
     }
     if (!err.empty()) {
       // the replay file is the stream itself
       stats().failures.push_back(files[i]);
       stats().fail_message = err;
-      printf("C05-FAIL %s\n", err.c_str());
+      printf("%s-FAIL %s\n", c10 ? "C10" : "C05", err.c_str());
     }
   }
   alarm(0);
